@@ -98,7 +98,7 @@ M0 == [ nv |-> 0, ndiv |-> 0, name |-> "", aoftime |-> 1, parcent |-> 300,
         ctx |-> "",            \* "" first epoch | "cut" | "restart"
         cuttorn |-> FALSE,     \* the crash image the current second epoch started from ended in partial bytes of a record / header
         cutnoval |-> FALSE,    \* ... its record file ended on a record boundary but a value frame of a whole record was missing / partial (A2b)
-        cptrefdisk |-> <<>>, cptreft |-> 0,
+        cptrefdisk |-> <<>>, cptreft |-> 0, cptreflo |-> 0, cptrefhi |-> 0, ntimeagn |-> 0, npreflush |-> 0,
         \* bursts (requests run while the records of earlier ones are still queued, handed to the log by reference)
         bq |-> <<>>,           \* records pushed by the burst in progress: [db, key, lid, ty, has, atpush, exp, hex, judged, i]
         bcur |-> EmptyFn,      \* <<db,key>> -> stored value of the key after the last request of the burst (bytes)
@@ -117,7 +117,7 @@ StepEnd(mm, e) ==
                                  stops |-> mm.nstop, stops2 |-> mm.nstop2,
                                  burst_requests |-> mm.nbreq, burst_records |-> mm.nbrec, burst_frames_judged |-> mm.nbfrm,
                                  burst_requests_agnostic |-> mm.nbagn, burst_image_values_judged |-> mm.nbimg, bursts_not_located |-> mm.nbskip,
-                                 cpt_deadlines_exact |-> mm.ncptexact]))
+                                 cpt_deadlines_exact |-> mm.ncptexact, keys_not_compared_record_ends_between_starts |-> mm.ntimeagn, preflush_images |-> mm.npreflush]))
     THEN mm ELSE mm
 
 \* a hold ends when its unlock is accepted (also one level of a re-entrant hold: conservative) or it expires
@@ -148,7 +148,7 @@ StepLive(mm, e) ==
                                         !.dmin = IF Dl(hr.h) < @ THEN Dl(hr.h) ELSE @,
                                         !.dmax = IF Dl(hr.h) > @ THEN Dl(hr.h) ELSE @]
                ELSE LET cont == id \in DOMAIN mm.born      \* one level of a re-entrant hold was released: the hold goes on
-                    IN [t |-> e.rt, cls |-> c, mixed |-> FALSE,
+                    IN [t |-> e.rt, bl |-> IF cont THEN mm.born[id].bl ELSE l, cls |-> c, mixed |-> FALSE,
                         inh |-> hr.pos > 1 /\ (ClsOf(hr.first.ef) # c
                                                 \/ LET fid == <<id[1], id[2], hr.first.lid>> IN fid \in DOMAIN mm.born /\ mm.born[fid].inh),
                         dmin |-> IF cont /\ mm.born[id].dmin < Dl(hr.h) THEN mm.born[id].dmin ELSE Dl(hr.h),
@@ -168,10 +168,11 @@ StepLive(mm, e) ==
         ended == {id \in DOMAIN mm.born : id \notin allIds \/ id \in mm.rel}
         NewIds == {id \in allIds : id \notin DOMAIN mm.born \/ id \in mm.rel \/ born2[id].terms # mm.born[id].terms}
         vt2 == [k \in kset |->
-                  LET old == IF k \in DOMAIN mm.vt THEN mm.vt[k] ELSE [t |-> e.rt, bad |-> FALSE, by |-> {}, kchg |-> FALSE, left |-> FALSE]
+                  LET old == IF k \in DOMAIN mm.vt THEN mm.vt[k] ELSE [t |-> e.rt, vl |-> l, bad |-> FALSE, by |-> {}, kchg |-> FALSE, left |-> FALSE]
                       newby == {id \in NewIds \cup mm.rel : id[1] = k[1] /\ id[2] = k[2]}
                       chg == KeyRec(k).data # OldData(k) \/ k \notin DOMAIN mm.vt
                   IN [t |-> IF chg THEN e.rt ELSE old.t,
+                      vl |-> IF chg THEN l ELSE old.vl,          \* trace line of the last value change
                       bad |-> (IF chg THEN FALSE ELSE old.bad) \/ BadNow(k),
                       by |-> IF chg THEN newby ELSE old.by,
                       \* a hold whose request set the value has been released since (its records leave the log with it)
@@ -197,6 +198,9 @@ LoadedFiles(files) == SelectSeq(files, LAMBDA f : f.name # "rewrite.aof.tmp")
 Judge(mm, p, e) ==
     LET pre  == mm.pre
         T    == e.rnow
+        \* the start read the wall clock somewhere between the two stamps the driver took around it
+        Tlo  == (IF e.rlo < e.rnow THEN e.rlo ELSE e.rnow) - 1
+        Thi  == (IF e.rhi > e.rnow THEN e.rhi ELSE e.rnow) + 1
         rec  == e.keys
         RecKeyIdx(db, key) == {x \in 1..Len(rec) : rec[x].db = db /\ rec[x].key = key}
         RecHoldOf(db, key, lid) ==
@@ -213,7 +217,7 @@ Judge(mm, p, e) ==
         B(x) == mm.born[Id(x)]
         Delay(x) == DelayOf(B(x).cls, x.h.ex, mm)
         Age(x) == mm.tstop - B(x).t
-        LiveAt(x) == x.h.exp < 0 \/ x.h.exp - T > Unit(x) + 1
+        LiveAt(x) == x.h.exp < 0 \/ x.h.exp - Thi > Unit(x) + 1
         Forced(x) == Id(x) \in mm.forced
         Must(x) == /\ LiveAt(x)
                    /\ \/ Forced(x)
@@ -225,13 +229,13 @@ Judge(mm, p, e) ==
         Recs == IF mm.havedisk THEN R!AllRecs(LoadedFiles(mm.disk)) ELSE <<>>
         LockRecsOf(db, key, lid) == {i \in 1..Len(Recs) : Recs[i].ty = 1 /\ Recs[i].db = db /\ Recs[i].key = key /\ Recs[i].lid = lid}
         SkipMix(db, key, lid) == LET I == LockRecsOf(db, key, lid)
-                                 IN (\E i \in I : R!Dead(Recs[i], T)) /\ (\E i \in I : ~R!Dead(Recs[i], T))
+                                 IN (\E i \in I : R!Dead(Recs[i], Thi)) /\ (\E i \in I : ~R!Dead(Recs[i], Tlo))
         SkipMixKey(db, key) == \E i \in 1..Len(Recs) : Recs[i].db = db /\ Recs[i].key = key /\ SkipMix(db, key, Recs[i].lid)
         \* a value recorded for an EARLIER lifetime of the key (the key had been released completely in between)
         StaleVal(db, key, v) == v # "" /\ \E i \in 1..Len(Recs) : Recs[i].db = db /\ Recs[i].key = key /\ Recs[i].data = v
         \* the hold had several deadlines during its life (re-lock / update) and the restart falls between them: its
         \* lock and unlock records carry different deadlines and the start skips "expired" records one by one
-        MixB(b) == b.dmin < b.dmax /\ b.dmin <= T + b.umax + 1
+        MixB(b) == b.dmin < b.dmax /\ b.dmin <= Thi + b.umax + 1
         Mix(x) == SkipMix(x.db, x.key, x.h.lid) \/ MixB(B(x))
         MixKey(db, key) == SkipMixKey(db, key) \/ (\E x \in PH : x.db = db /\ x.key = key /\ MixB(B(x)))
                            \/ (\E id \in DOMAIN mm.gone : id[1] = db /\ id[2] = key /\ MixB(mm.gone[id]))
@@ -239,7 +243,13 @@ Judge(mm, p, e) ==
         \* the log holds the records in the order they were PERSISTED, the replay re-runs the Count admission in that order
         ChgOnKey(db, key) == (\E y \in PH : y.db = db /\ y.key = key /\ y.n >= 2 /\ B(y).chg)
                              \/ (<<db, key>> \in DOMAIN mm.vt /\ mm.vt[<<db, key>>].kchg)
-        Why(x) == IF Mix(x) THEN "expired-records-skipped-one-by-one"
+        \* the key is occupied, at the restart, by a hold that was NOT live at the stop point and whose own records were skipped
+        \* one by one (its shortening re-lock and its UNLOCK record are "expired", its first LOCK record is not: A27 brings the
+        \* released hold back) - the replayed request of the real holder is then refused by the Count admission
+        Resurrected == {y \in RH : (~\E z \in PH : Id(z) = Id(y))
+                                   /\ (SkipMix(y.db, y.key, y.h.lid) \/ (Id(y) \in DOMAIN mm.gone /\ MixB(mm.gone[Id(y)])))}
+        Blocked(x) == \E y \in Resurrected : y.db = x.db /\ y.key = x.key /\ y.h.lid # x.h.lid
+        Why(x) == IF Mix(x) \/ Blocked(x) THEN "expired-records-skipped-one-by-one"
                   ELSE IF B(x).upd /\ B(x).chg THEN "taken-with-update-flag-then-terms-changed"
                   ELSE IF (x.n >= 2 \/ B(x).shared) /\ ChgOnKey(x.db, x.key) THEN "count-admission-replayed-in-persist-order"
                   ELSE IF B(x).inh THEN "class-inherited-from-oldest-holder"
@@ -263,8 +273,11 @@ Judge(mm, p, e) ==
         KeysRestored == {<<x.db, x.key>> : x \in Restored}
         PreData(k) == pre[CHOOSE i \in 1..Len(pre) : pre[i].db = k[1] /\ pre[i].key = k[2]].data
         RecData(k) == rec[CHOOSE i \in RecKeyIdx(k[1], k[2]) : TRUE].data
+        \* second epoch after a crash image (C08, "whatever is persisted after that restart is recovered by the following one"):
+        \* a value set by the request of a persist-immediately hold is in the log with that request's record at once
+        ImmOnly(k) == mm.ctx = "cut" /\ \A x \in PH : (x.db = k[1] /\ x.key = k[2]) => (~Forced(x) /\ ~B(x).mixed /\ B(x).cls = "imm" /\ ~B(x).inh /\ x.n = 1)
         ValJudged(k) == /\ k \in DOMAIN mm.vt /\ ~mm.vt[k].bad
-                        /\ mm.aoftime <= 1 /\ mm.tstop - mm.vt[k].t > mm.aoftime
+                        /\ mm.aoftime <= 1 /\ (mm.tstop - mm.vt[k].t > mm.aoftime \/ ImmOnly(k))
                         /\ \A x \in PH : (x.db = k[1] /\ x.key = k[2]) => (Forced(x) \/ (~B(x).mixed /\ B(x).cls \in {"imm", "dflt"} /\ ~B(x).inh))
         BadValue == {k \in KeysRestored : ValJudged(k) /\ PreData(k) # RecData(k)}
         m0 == [mm EXCEPT !.njudged = @ + Cardinality(PH), !.nmust = @ + Cardinality({x \in PH : Must(x)}),
@@ -281,8 +294,16 @@ Judge(mm, p, e) ==
                                                                                     THEN "expired-records-skipped-one-by-one" ELSE ""] @@ CI), m3, SetToSeq(Unknown))
         \* the value was last set by the request of a hold whose own deadline is over at T: its record is skipped
         SetterSkipped(k) == k \in DOMAIN mm.vt /\ \E id \in mm.vt[k].by :
-                                \/ (id \in DOMAIN mm.gone /\ mm.gone[id].dmin <= T + mm.gone[id].umax + 1)
-                                \/ (id \in DOMAIN mm.born /\ mm.born[id].dmin <= T + mm.born[id].umax + 1)
+                                \/ (id \in DOMAIN mm.gone /\ mm.gone[id].dmin <= Thi + mm.gone[id].umax + 1)
+                                \/ (id \in DOMAIN mm.born /\ mm.born[id].dmin <= Thi + mm.born[id].umax + 1)
+        \* A27 / A31 / A28 explain a lost value by the loss of the record that carried it (its hold expired, was released and
+        \* compacted away, ...).  They do not apply when ANOTHER hold - live at the stop point, due to be persisted, taken by a
+        \* later request than the last value operation, and restored by this restart - exists on the key: every LOCK record
+        \* written after a value operation carries the key's value (LockManager.AofLockData), so that hold's own record
+        \* restores it.  A value lost although such a record was replayed is a violation of its own.
+        LaterCarrier(k) == k \in DOMAIN mm.vt /\ PreData(k) # "" /\
+                           \E x \in PH : x.db = k[1] /\ x.key = k[2] /\ Must(x) /\ x \in Restored /\ ~Forced(x)
+                                          /\ B(x).bl > mm.vt[k].vl /\ Id(x) \notin mm.vt[k].by /\ ~B(x).mixed
         SetterGone(k) == k \in DOMAIN mm.vt /\ (mm.vt[k].left \/ (mm.vt[k].by # {} /\ \A id \in mm.vt[k].by : id \notin DOMAIN mm.born))
         WhyRec(x) == IF Mix(x) THEN "expired-records-skipped-one-by-one"
                      ELSE IF B(x).upd /\ B(x).chg THEN "taken-with-update-flag-then-terms-changed"
@@ -296,7 +317,8 @@ Judge(mm, p, e) ==
                                                ms |-> Bit(x.h.ef, 1024), why |-> WhyRec(x)] @@ CI), m5, SetToSeq(BadDeadline))
         m7 == FoldLeft(LAMBDA acc, k : Report(acc, p, "restored-value-differs",
                                               [db |-> k[1], key |-> k[2], was |-> PreData(k), restored |-> RecData(k),
-                                               why |-> IF MixKey(k[1], k[2]) \/ SetterSkipped(k) THEN "expired-records-skipped-one-by-one"
+                                               why |-> IF LaterCarrier(k) THEN "value-carried-by-the-record-of-a-later-live-hold-lost"
+                                                       ELSE IF MixKey(k[1], k[2]) \/ SetterSkipped(k) THEN "expired-records-skipped-one-by-one"
                                                        ELSE IF \E x \in Missing \cup BadField \cup BadDeadline : x.db = k[1] /\ x.key = k[2] /\ Why(x) # ""
                                                             THEN Why(CHOOSE x \in Missing \cup BadField \cup BadDeadline : x.db = k[1] /\ x.key = k[2] /\ Why(x) # "")
                                                        ELSE IF SetterGone(k) THEN "value-set-by-a-hold-released-since"
@@ -457,14 +479,29 @@ StepRec0(mm, e) ==
       [] e.role = "stop2" ->
             \* restart after a second epoch: C08 (after a crash image) or C07 (after a clean restart)
             Judge(m1, IF mm.ctx = "cut" THEN "C08" ELSE "C07", e)
+      [] e.role = "preflush" ->
+            \* a crash image taken at aof.flush.enter (records still in the write buffer): the start must succeed; the second
+            \* epoch that follows (e2begin ctx "cut") and the third start are judged by Judge under C08
+            LET m2 == [m1 EXCEPT !.lastrec = e.keys, !.cuttorn = FALSE, !.cutnoval = FALSE, !.npreflush = @ + 1]
+            IN IF ~e.ok THEN Report(m2, "C08", "start-fails-after-crash", [file |-> "", cut_at |-> -1, at |-> "aof.flush.enter", err |-> e.err,
+                                                                           torn_record_or_header |-> FALSE, torn_tail |-> FALSE, value_file_torn |-> FALSE])
+               ELSE m2
       [] e.role = "prefix" ->
             LET m2 == IF "file" \in DOMAIN e THEN BurstImage(m1, e, e.n, e.file) ELSE m1
-            IN [m2 EXCEPT !.prefixes = Append(@, [ok |-> e.ok, st |-> st, t |-> e.rnow]), !.nprefix = @ + 1, !.lastrec = e.keys, !.cuttorn = FALSE, !.cutnoval = FALSE]
+            IN [m2 EXCEPT !.prefixes = Append(@, [ok |-> e.ok, st |-> st, t |-> e.rnow, lo |-> IF e.rlo < e.rnow THEN e.rlo ELSE e.rnow, hi |-> IF e.rhi > e.rnow THEN e.rhi ELSE e.rnow]), !.nprefix = @ + 1, !.lastrec = e.keys, !.cuttorn = FALSE, !.cutnoval = FALSE]
       [] e.role = "cut" ->
             LET n   == Len(m1.prefixes)
                 adm == {i \in 1..n : i - 1 <= e.ncomp /\ m1.prefixes[i].ok}
                 Later(i) == IF m1.prefixes[i].t > e.rnow THEN m1.prefixes[i].t ELSE e.rnow
-                hit == {i \in adm : R!StateEqAt(m1.prefixes[i].st, st, Later(i))}
+                \* the prefix and the image were started at different seconds: keys with a record whose lifetime ends between
+                \* the two starts (+- 2 s) are not compared (one start applies the record, the other skips it)
+                crr == IF m1.havedisk THEN R!AllRecs(LoadedFiles(m1.disk)) ELSE <<>>
+                clo == IF e.rlo < e.rnow THEN e.rlo ELSE e.rnow
+                chi == IF e.rhi > e.rnow THEN e.rhi ELSE e.rnow
+                TK(i) == R!TimeKeys(crr, (IF m1.prefixes[i].lo < clo THEN m1.prefixes[i].lo ELSE clo) - 2,
+                                         (IF m1.prefixes[i].hi > chi THEN m1.prefixes[i].hi ELSE chi) + 2)
+                hit == {i \in adm : R!StateEqAt(R!Without(m1.prefixes[i].st, TK(i)), R!Without(st, TK(i)), Later(i))}
+                ntk == IF adm = {} THEN 0 ELSE Cardinality(TK(Max(adm)) \cap DOMAIN st)
                 torn == (e.x < 12) \/ ((e.x - 12) % 64 # 0)
                 dt  == m1.havedisk /\ \E i \in 1..Len(m1.disk) : m1.disk[i].name = e.file /\
                                            (m1.disk[i].dtorn > 0 \/ \E j \in 1..Len(m1.disk[i].recs) : m1.disk[i].recs[j].data = "-")
@@ -472,7 +509,7 @@ StepRec0(mm, e) ==
                 det == [file |-> e.file, cut_at |-> e.x, value_file_cut_at |-> e.y, whole_records_before_cut |-> e.ncomp,
                         torn_record |-> torn /\ e.x >= 12, torn_header |-> e.x < 12 /\ e.x > 0, torn_record_or_header |-> torn,
                         value_file_torn |-> dt, torn_tail |-> tt, err |-> e.err]
-                m2 == [BurstImage(m1, e, e.ncomp, e.file) EXCEPT !.ncut = @ + 1, !.lastrec = e.keys, !.cuttorn = torn, !.cutnoval = dt]
+                m2 == [BurstImage(m1, e, e.ncomp, e.file) EXCEPT !.ncut = @ + 1, !.lastrec = e.keys, !.cuttorn = torn, !.cutnoval = dt, !.ntimeagn = @ + ntk]
             IN IF ~e.ok THEN Report(m2, "C08", "start-fails-after-crash", det)
                ELSE IF hit = {} THEN Report(m2, "C08", "recovered-state-is-no-record-prefix",
                                             det @@ [recovered_keys |-> SetToSeq(DOMAIN st), nprefixes |-> n, started_at |-> e.rnow,
@@ -480,20 +517,28 @@ StepRec0(mm, e) ==
                                                     \* while another LOCK record of the same hold did not (records are skipped one by one)
                                                     why |-> LET rr == IF m1.havedisk THEN R!AllRecs(LoadedFiles(m1.disk)) ELSE <<>>
                                                                 t0 == IF n = 0 THEN e.rnow ELSE m1.prefixes[1].t
-                                                            IN IF \E i \in 1..Len(rr) : R!Dead(rr[i], e.rnow) /\ ~R!Dead(rr[i], t0 - 1)
+                                                            IN IF \E i \in 1..Len(rr) : R!Dead(rr[i], chi + 1) /\ ~R!Dead(rr[i], t0 - 2)
                                                                       /\ \E j \in 1..Len(rr) : rr[j].ty = 1 /\ rr[j].db = rr[i].db /\ rr[j].key = rr[i].key
-                                                                                                /\ rr[j].lid = rr[i].lid /\ ~R!Dead(rr[j], e.rnow)
+                                                                                                /\ rr[j].lid = rr[i].lid /\ ~R!Dead(rr[j], t0 - 2)
                                                                THEN "expired-records-skipped-one-by-one" ELSE "",
                                                     differs_from_longest_admissible_prefix_on |->
                                                         IF adm = {} THEN <<>> ELSE SetToSeq(R!DiffKeysAt(m1.prefixes[Max(adm)].st, st, Later(Max(adm)))),
                                                     longest_admissible_prefix_started_at |-> IF adm = {} THEN 0 ELSE m1.prefixes[Max(adm)].t])
                ELSE m2
       [] e.role = "cptref" ->
-            [m1 EXCEPT !.cptref = st, !.cptrefok = e.ok, !.havecptref = TRUE, !.cptreft = e.rnow, !.cptrefdisk = IF m1.havedisk THEN m1.disk ELSE <<>>]
+            [m1 EXCEPT !.cptref = st, !.cptrefok = e.ok, !.havecptref = TRUE, !.cptreft = e.rnow, !.cptrefdisk = IF m1.havedisk THEN m1.disk ELSE <<>>,
+                       !.cptreflo = IF e.rlo < e.rnow THEN e.rlo ELSE e.rnow, !.cptrefhi = IF e.rhi > e.rnow THEN e.rhi ELSE e.rnow]
       [] e.role = "cptimg" ->
             LET later == IF m1.cptreft > e.rnow THEN m1.cptreft ELSE e.rnow
-                ref == m1.cptref
-                img == st
+                \* the two recoveries were started at different seconds on a busy machine: keys with a record whose lifetime
+                \* ends between the two starts (+- 2 s) are not compared
+                clo == IF e.rlo < e.rnow THEN e.rlo ELSE e.rnow
+                chi == IF e.rhi > e.rnow THEN e.rhi ELSE e.rnow
+                wlo == (IF m1.cptreflo < clo THEN m1.cptreflo ELSE clo) - 2
+                whi == (IF m1.cptrefhi > chi THEN m1.cptrefhi ELSE chi) + 2
+                tk  == R!TimeKeys(R!AllRecs(LoadedFiles(m1.cptrefdisk)), wlo, whi)
+                ref == R!Without(m1.cptref, tk)
+                img == R!Without(st, tk)
                 both == DOMAIN ref \cap DOMAIN img
                 \* "the same holds, depths, deadlines and values": both states were recovered by the same code, the compacted files
                 \* should hold the very records of the replaced ones.  A seconds-unit deadline is CommandTime + ExpriedTime + 1
@@ -515,8 +560,8 @@ StepRec0(mm, e) ==
                 Dropped == {i \in 1..Len(rr) : <<rr[i].db, rr[i].key>> \in bad /\ ~R!Dead(rr[i], e.rnow) /\ ~\E j \in 1..Len(ir) : Same(rr[i], ir[j])}
                 HeldInRef(i) == <<rr[i].db, rr[i].key>> \in DOMAIN ref /\ R!IdxOfLid(ref[<<rr[i].db, rr[i].key>>].H, rr[i].lid) > 0
                 SameId(a, b) == a.db = b.db /\ a.key = b.key /\ a.lid = b.lid
-                RefSkipMix == \E i \in 1..Len(rr) : <<rr[i].db, rr[i].key>> \in bad /\ R!Dead(rr[i], e.rnow)
-                                                     /\ \E j \in 1..Len(rr) : SameId(rr[i], rr[j]) /\ rr[j].ty = 1 /\ ~R!Dead(rr[j], e.rnow)
+                RefSkipMix == \E i \in 1..Len(rr) : <<rr[i].db, rr[i].key>> \in bad /\ R!Dead(rr[i], whi)
+                                                     /\ \E j \in 1..Len(rr) : SameId(rr[i], rr[j]) /\ rr[j].ty = 1 /\ ~R!Dead(rr[j], wlo)
                 \* does a record of the replaced files describe the terms its hold has when those files are recovered (it is the
                 \* record that set them last)?  The compaction filter (LockDB.HasLock -> CheckLockedEqual) drops update-flag
                 \* records whose terms are no longer the holder's: A30 is about those.  A dropped update-flag record that DOES
@@ -537,8 +582,11 @@ StepRec0(mm, e) ==
                         changed_keys |-> chgseq, dropped_records |-> Cardinality(Dropped),
                         from_replaced_files |-> [x \in 1..Len(chgseq) |-> Dls(ref, chgseq[x])],
                         from_compacted_files |-> [x \in 1..Len(chgseq) |-> Dls(img, chgseq[x])],
+                        values_from_replaced_files |-> [x \in 1..Len(chgseq) |-> IF chgseq[x] \in DOMAIN ref THEN ref[chgseq[x]].data ELSE ""],
+                        values_from_compacted_files |-> [x \in 1..Len(chgseq) |-> IF chgseq[x] \in DOMAIN img THEN img[chgseq[x]].data ELSE ""],
                         starts_at |-> <<m1.cptreft, e.rnow>>]
-                m2 == [m1 EXCEPT !.ncpt = @ + 1, !.havecptref = FALSE, !.ncptexact = @ + (IF e.final /\ e.ok /\ m1.cptrefok THEN nexact ELSE 0)]
+                m2 == [m1 EXCEPT !.ncpt = @ + 1, !.havecptref = FALSE, !.ncptexact = @ + (IF e.final /\ e.ok /\ m1.cptrefok THEN nexact ELSE 0),
+                                  !.ntimeagn = @ + Cardinality(tk \cap (DOMAIN m1.cptref \cup DOMAIN st))]
             IN IF ~m1.havecptref \/ ~m1.cptrefok THEN m2
                ELSE IF ~e.ok THEN Report(m2, "C16", IF e.final THEN "start-fails-after-compaction" ELSE "start-fails-after-interrupted-compaction", det)
                ELSE IF ~R!StateEqAtT(ref, img, later, Tol)
@@ -559,7 +607,7 @@ StepE2Begin(mm, e) ==
         ids == UNION {{<<keys[i].db, keys[i].key, keys[i].holds[j].lid>> : j \in 1..Len(keys[i].holds)} : i \in 1..Len(keys)}
     IN [mm EXCEPT !.ctx = e.ctx, !.forced = ids, !.rel = {}, !.live = keys, !.gone = EmptyFn,
                   !.freecpt = IF "cpt" \in DOMAIN e THEN e.cpt = "faithful" ELSE FALSE,
-                  !.born = [id \in ids |-> [t |-> e.rt, cls |-> "imm", mixed |-> FALSE, inh |-> FALSE, dmin |-> INF, dmax |-> INF, umax |-> 1,
+                  !.born = [id \in ids |-> [t |-> e.rt, bl |-> 0, cls |-> "imm", mixed |-> FALSE, inh |-> FALSE, dmin |-> INF, dmax |-> INF, umax |-> 1,
                                               upd |-> FALSE, chg |-> FALSE, updlater |-> FALSE, shared |-> FALSE, terms |-> <<0, 0, 0>>]],
                   !.vt = EmptyFn]
 
